@@ -57,7 +57,7 @@ func (s *repoState) apply(op string) bool {
 		if f[3] != "-" {
 			t.Srcs = strings.Split(f[3], ",")
 		}
-		if t.Kind == "const" {
+		if t.Kind == "const" || t.Kind == "text" {
 			t.Const = lib.UnHex(f[5])
 		}
 		if _, ok := s.targets[t.Label]; !ok {
@@ -195,6 +195,8 @@ func (r *realRepo) write(s *repoState) error {
 			switch t.Kind {
 			case "fg":
 				fmt.Fprintf(&b, "filegroup(name=%q, srcs=[%s], visibility=[\"PUBLIC\"])\n", nameOf(l), strings.Join(srcs, ", "))
+			case "text":
+				fmt.Fprintf(&b, "text_file(name=%q, out=%q, content=%q, visibility=[\"PUBLIC\"])\n", nameOf(l), t.Out, t.Const)
 			case "opt":
 				fmt.Fprintf(&b, "genrule(name=%q, srcs=[%s], outs=[%q], optional_outs=[\"*.extra\"], cmd=%q, visibility=[\"PUBLIC\"])\n",
 					nameOf(l), strings.Join(srcs, ", "), t.Out, r.cmdFor(t))
@@ -364,7 +366,7 @@ func (g *gen) targetOp(t *target) string {
 		srcs = strings.Join(t.Srcs, ",")
 	}
 	op := fmt.Sprintf("target %s %s %s %s", t.Label, t.Kind, srcs, t.Out)
-	if t.Kind == "const" {
+	if t.Kind == "const" || t.Kind == "text" {
 		op += " " + hx(t.Const)
 	}
 	return op
@@ -376,7 +378,11 @@ func (g *gen) randomDef(label string, avail []string, out string) *target {
 	t := &target{Label: label, Out: out}
 	switch g.r.Intn(17) {
 	case 0:
-		t.Kind, t.Const = "const", lib.Pick(g.r, constPool)
+		if g.r.Bool() {
+			t.Kind, t.Const = "const", lib.Pick(g.r, constPool)
+		} else {
+			t.Kind, t.Const = "text", lib.Pick(g.r, []string{"k1", "line one\nline two\n", "", "v\n"})
+		}
 	case 10, 11:
 		t.Kind = "catn"
 	case 12, 14:
